@@ -494,6 +494,11 @@ pub struct Socket<'a> {
     /// The last sequence number sent.
     /// I.e. in an idle socket, local_seq_no+tx_buffer.len().
     remote_last_seq: TcpSeqNumber,
+    /// The highest value `remote_last_seq` has had (SND.MAX). While a retransmission has
+    /// rewound `remote_last_seq`, a segment that occupies no sequence space carries this
+    /// number: one below what the peer has already received would be discarded by it as
+    /// an old duplicate, together with the acknowledgment it carries.
+    remote_max_seq: TcpSeqNumber,
     /// The last acknowledgement number sent.
     /// I.e. in an idle socket, remote_seq_no+rx_buffer.len().
     remote_last_ack: Option<TcpSeqNumber>,
@@ -601,6 +606,7 @@ impl<'a> Socket<'a> {
             local_seq_no: TcpSeqNumber::default(),
             remote_seq_no: TcpSeqNumber::default(),
             remote_last_seq: TcpSeqNumber::default(),
+            remote_max_seq: TcpSeqNumber::default(),
             remote_last_ack: None,
             remote_last_win: 0,
             remote_win_len: 0,
@@ -916,6 +922,7 @@ impl<'a> Socket<'a> {
         self.local_seq_no = TcpSeqNumber::default();
         self.remote_seq_no = TcpSeqNumber::default();
         self.remote_last_seq = TcpSeqNumber::default();
+        self.remote_max_seq = TcpSeqNumber::default();
         self.remote_last_ack = None;
         self.remote_last_win = 0;
         self.remote_win_len = 0;
@@ -1062,6 +1069,7 @@ impl<'a> Socket<'a> {
         let seq = Self::random_seq_no(cx);
         self.local_seq_no = seq;
         self.remote_last_seq = seq;
+        self.remote_max_seq = seq;
         Ok(())
     }
 
@@ -1481,7 +1489,7 @@ impl<'a> Socket<'a> {
         // [...] an empty acknowledgment segment containing the current send-sequence number
         // and an acknowledgment indicating the next sequence number expected
         // to be received.
-        reply_repr.seq_number = self.remote_last_seq;
+        reply_repr.seq_number = self.remote_last_seq.max(self.remote_max_seq);
         reply_repr.ack_number = Some(self.remote_seq_no + self.rx_buffer.len());
         self.remote_last_ack = reply_repr.ack_number;
 
@@ -1932,6 +1940,7 @@ impl<'a> Socket<'a> {
                 self.local_seq_no = Self::random_seq_no(cx);
                 self.remote_seq_no = repr.seq_number + 1;
                 self.remote_last_seq = self.local_seq_no;
+                self.remote_max_seq = self.local_seq_no;
                 self.remote_has_sack = repr.sack_permitted;
                 self.remote_win_scale = repr.window_scale;
                 // Remote doesn't support window scaling, don't do it.
@@ -1980,6 +1989,7 @@ impl<'a> Socket<'a> {
 
                 self.remote_seq_no = repr.seq_number + 1;
                 self.remote_last_seq = self.local_seq_no + 1;
+                self.remote_max_seq = self.remote_last_seq;
                 self.remote_last_ack = Some(repr.seq_number);
                 self.remote_has_sack = repr.sack_permitted;
                 self.remote_win_scale = repr.window_scale;
@@ -2175,6 +2185,9 @@ impl<'a> Socket<'a> {
             // deallocated from the buffer.
             if self.remote_last_seq < self.local_seq_no {
                 self.remote_last_seq = self.local_seq_no
+            }
+            if self.remote_max_seq < self.local_seq_no {
+                self.remote_max_seq = self.local_seq_no
             }
         }
 
@@ -2735,6 +2748,23 @@ impl<'a> Socket<'a> {
         // has expired, and we also have data in transmit buffer. Since any packet that occupies
         // sequence space will elicit an ACK, we only need to send an explicit packet if we
         // couldn't fill the sequence space with anything.
+        // A segment that occupies no sequence space carries the highest sequence number sent,
+        // also while a retransmission has rewound `remote_last_seq`.
+        if repr.segment_len() == 0
+            && matches!(
+                self.state,
+                State::Established
+                    | State::FinWait1
+                    | State::FinWait2
+                    | State::CloseWait
+                    | State::Closing
+                    | State::LastAck
+                    | State::TimeWait
+            )
+        {
+            repr.seq_number = repr.seq_number.max(self.remote_max_seq);
+        }
+
         let is_keep_alive;
         if self.timer.should_keep_alive(cx.now()) && repr.is_empty() {
             repr.seq_number = repr.seq_number - 1;
@@ -2814,9 +2844,13 @@ impl<'a> Socket<'a> {
         // We've sent a packet successfully, so we can update the internal state now.
         // Use max() so a fast-retransmit segment (whose seq_number is local_seq_no, well
         // behind the current frontier) doesn't rewind the tracked "highest sent" sequence.
-        self.remote_last_seq = self
-            .remote_last_seq
-            .max(repr.seq_number + repr.segment_len());
+        // (An empty segment carries SND.MAX and leaves a rewound `remote_last_seq` alone.)
+        if repr.segment_len() > 0 {
+            self.remote_last_seq = self
+                .remote_last_seq
+                .max(repr.seq_number + repr.segment_len());
+        }
+        self.remote_max_seq = self.remote_max_seq.max(self.remote_last_seq);
         self.remote_last_ack = repr.ack_number;
         // `remote_last_win` is kept in scaled units, but the window field of a SYN is not
         // scaled: convert it, or the window we believe we advertised would be larger than
